@@ -59,13 +59,18 @@ def generate(rng, tier, n):
         multi, _ = infosets_of(t)
         if len(multi[1]) + len(multi[2]) < 2:
             continue
-        method = "external" if live else rng.choice(["sampled", "external"] + (["sampled"] * 3 if early else []))
+        if not live and rng.random() < 0.15:
+            from ..solvers import tiny_unit
+            t, _unit = tiny_unit(rng, t)           # the same game in a far-out payoff unit
+        if not live and st.get("chance", 0) >= 1 and rng.random() < 0.2:
+            live = True                            # the production samplers themselves, on games with chance nodes
+        method = "external" if (live and st.get("chance", 0) == 0) else rng.choice(["sampled", "external"] + (["sampled"] * 3 if early else []))
         preset = rng.choice(PRESETS)
         threads = rng.choice([1, 2, 2, 4])
         cb = CaseBuilder(cid, t, {"stats": st, "method": method, "preset": preset, "threads": threads})
         cb.meta["stat_runs"] = []
         cb.meta["live"] = live
-        for T in (TS + [40000] if live or early else TS):
+        for T in (TS + [40000] if (live and st.get("chance", 0) == 0) or early else TS):
             s = cb.solve(method, T, 0.0, threads, preset, None if live else {"weighted_seed": seed + cid * 7 + T}, kind="solve_long")
             cb.info(s, kind="info_long")
             cb.meta["stat_runs"].append((T, len(cb.ops) - 2))
